@@ -190,6 +190,7 @@ def gen_all(ctx):
             trip = rand_matrix(rng, n, kind)
             b, x0, xs, tag = pick_rhs(n, trip, dy=(n <= 6 and rng.random() < 0.3))
             tol = rng.choice(TOLS); maxit = rng.choice([-1, 0, 0, 1, 2, 3, 5, 8, 9, 12, 20])
+            if n >= 7: maxit = rng.choice([1, 2, 3, 4, 5, 6])
             procs = PROCS
         else:
             n = rng.choice([9, 10, 11, 12]); kind = "tri"
@@ -225,7 +226,8 @@ def gen_all(ctx):
         n = rng.choice([1, 2, 3, 4, 5, 6, 7, 8, 9, 10])
         trip = rand_matrix(rng, n, rng.choice(["spd", "tri", "tri", "diag"]))
         b, x0, xs, tag = pick_rhs(n, trip)
-        tol = rng.choice(TOLS[1:8]); maxit = rng.choice([1, 2, 3]) if n > 3 else rng.choice([0, 1, 2, 3, 4])
+        tol = rng.choice(TOLS[1:8])
+        maxit = rng.choice([0, 1, 2, 3, 4]) if n <= 3 else rng.choice([1, 2, 3]) if n <= 5 else rng.choice([1, 2]) if n <= 7 else 1
         procs = tuple(P for P in PROCS if P <= n) or (1,)
         if ctx.tier == "quick": procs = tuple(rng.sample(procs, min(2, len(procs))))
         add_group("pcg", n, trip, b, x0, tol, maxit, ["pcg", tag], True, xs, procs=procs, seq=False)
@@ -252,12 +254,13 @@ def gen_all(ctx):
     n_x = ctx.scale(60, 600)
     for k in range(n_x):
         n = rng.choice([0, 1, 2, 3, 5, 8]); op = rng.choice(["xnorm", "xinner"])
-        small = rng.random() < 0.3        # entries of magnitude 2^-30 .. 2^-46 (regression: norm must not drop them)
+        small = rng.random() < 0.3        # entries of magnitude 2^-30 .. 2^-60 (regression: norm must not drop them)
         def xv():
             out = []
+            e = rng.randint(30, 60)       # one exponent per vector: sums of products stay exact in doubles
             for _ in range(n):
                 r = rng.random()
-                sc = 2 ** rng.randint(30, 46) if small else rng.choice([1, 2, 4])
+                sc = 2 ** e if small else rng.choice([1, 2, 4])
                 out.append("nan" if r < 0.18 else nums.tok_num(Fraction(rng.randint(-5, 5), sc)))
             return out
         u = xv(); v = xv() if op == "xinner" else []
@@ -581,7 +584,7 @@ def run_model_parallel(ctx, items, name, jobs=14):
     def go(w):
         f, to, l = w
         t0 = _t.time(); r = fw.run_model(ctx, f, timeout=to); dt = _t.time() - t0
-        if l is not None and dt > 4: slow.append("%.0fs %s" % (dt, " ".join(l.split()[1:3])))
+        if l is not None and dt > 4: slow.append((dt, "%.0fs %s maxit=%s" % (dt, " ".join(l.split()[1:3]), l.split()[4 + 3 * int(l.split()[3]) + 2 * int(l.split()[2]) + 1])))
         return r, l
     with concurrent.futures.ThreadPoolExecutor(max_workers=jobs) as ex:
         for (rc, res, raw, err), l in ex.map(go, work):
@@ -589,7 +592,7 @@ def run_model_parallel(ctx, items, name, jobs=14):
                 ctx.count("model_timeout_skipped"); out[l.split()[0]] = [("TIMEOUT", [])]; continue
             if rc != 0: ctx.signal("K", "modeldriver", "model driver exited with %s: %s" % (rc, (err or "")[-400:]))
             out.update(res)
-    if slow: ctx.notes.append("slow model cases: " + "; ".join(sorted(slow, reverse=True)[:8]))
+    if slow: ctx.notes.append("slow model cases: " + "; ".join(t for _, t in sorted(slow, reverse=True)[:8]))
     return out
 
 
@@ -650,6 +653,12 @@ def run(ctx):
             ctx.count("pcg_cycle_not_linear_skipped"); continue      # the cycle is not the linear map the model is given
         oracle(ctx, c, I)
         if c.small: compare(ctx, c, I, model.get(c.cid))
+        elif not I.finite and c.kind == "pcg" and all(bi == yi for bi, yi in zip(c.b, matvec(c.n, c.trip, c.x0))):
+            ctx.signal("O", "pcg:exact_start_nan", "PCG started at the exact solution (r0 = 0 exactly): alpha = 0/0, non-finite "
+                       "output: res = %s" % ([fl(v) for v in I.res][:6],), case=c.line)
+        elif not I.finite and c.kind == "pcg" and all(v == 0 for v in c.b) and any(v != 0 for v in c.x0):
+            ctx.signal("O", "pcg:zero_rhs_nan", "PCG with b = 0: reported residuals divide by <b, M b> = 0: res = %s"
+                       % ([fl(v) for v in I.res][:6],), case=c.line)
         elif not I.finite:
             ctx.signal("O", sigbase(c) + ":nonfinite", "non-finite values returned on a large well-conditioned system: res = %s"
                        % ([fl(v) for v in I.res][:8],), case=c.line)
